@@ -21,6 +21,7 @@ import numpy as np
 
 logging.disable(logging.CRITICAL)
 
+import framework
 from streams import searcher as S
 from streams.searcher import compare  # noqa: F401
 from syne_tune.backend.trial_status import Trial
@@ -96,11 +97,12 @@ MAX_T = 9
 # (b) get_state / clone_from_state twins of the real searchers
 
 
-def _mk_gp_mf(cs, seed, p2e, allow_duplicates=False):
+def _mk_gp_mf(cs, seed, p2e, allow_duplicates=False, more_options=None):
     sch = HyperbandScheduler(dict(cs), searcher="bayesopt", metric=METRIC, mode="min", resource_attr=RES, max_t=MAX_T,
                              grace_period=1, reduction_factor=3, type="stopping", random_seed=seed,
                              points_to_evaluate=p2e,
-                             search_options={"num_init_random": 10 ** 6, "debug_log": False, "allow_duplicates": bool(allow_duplicates)})
+                             search_options=dict({"num_init_random": 10 ** 6, "debug_log": False, "allow_duplicates": bool(allow_duplicates)},
+                                                 **(more_options or {})))
     sch._initialize_searcher()
     sch.searcher._twin_scheduler = sch   # harness-side back reference (for configure_scheduler of a clone)
     return sch.searcher
@@ -120,12 +122,13 @@ def make_twin_searcher(kind, cs, ctor, p2e, seed_shift=0):
             # no recording needed for twins: restore the real method
             s._hp_ranges.random_config = s._rec.real
         return s
+    rc = {"restrict_configurations": [dict(c) for c in ctor["restrict"]]} if ctor.get("restrict") else {}
     if kind == "gp-fifo":
         return GPFIFOSearcher(dict(cs), metric=METRIC, points_to_evaluate=None if p2e is None else [dict(p) for p in p2e],
                               num_init_random=10 ** 6, random_seed=seed, debug_log=False,
-                              allow_duplicates=ctor.get("allow_duplicates", False))
+                              allow_duplicates=ctor.get("allow_duplicates", False), **rc)
     if kind == "gp-mf":
-        return _mk_gp_mf(cs, seed, None if p2e is None else [dict(p) for p in p2e], ctor.get("allow_duplicates", False))
+        return _mk_gp_mf(cs, seed, None if p2e is None else [dict(p) for p in p2e], ctor.get("allow_duplicates", False), rc)
     raise AssertionError(kind)
 
 
@@ -291,6 +294,11 @@ def run_clone_twin(spec):
             except Exception as e:
                 sig = "c16:random-clone-restrict-configurations" if (kind == "random" and ctor.get("restrict")) else \
                       ("c16:random-clone-raises" if kind == "random" else f"c16:{kind}-clone-raises")
+                if kind.startswith("gp") and ctor.get("restrict") and isinstance(e, AssertionError) and \
+                        isinstance(st, dict) and st.get("restrict_configurations") == []:
+                    # restored after every allowed configuration has been suggested: the internal random searcher is rebuilt from
+                    # an empty list, which its constructor rejects (the original keeps answering None)
+                    sig = "c16:gp-clone-raises:restrict-list-used-up"
                 add(sig, f"clone taken at prefix {i} raised {type(e).__name__} at event {j} {script[j]!r}: {e}")
                 diverged = True
                 break
@@ -312,6 +320,12 @@ def run_clone_twin(spec):
                         # the internal random searcher's own exclusion list is not part of the state: the clone
                         # counts retries differently, visible when the original runs into MAX_RETRIES (F8)
                         sig = "c16:gp-clone-none-mismatch"
+                    elif kind.startswith("gp") and ctor.get("restrict") and \
+                            len({framework.canon(c) for c in ctor["restrict"]}) < len(ctor["restrict"]):
+                        # same cause (the internal random searcher's exclusion list is not in the state): a repeated entry of the
+                        # list is skipped by the original's random searcher and drawn (then rejected, at the cost of further
+                        # draws) by the restored one
+                        sig = "c16:gp-clone-diverges:restrict-list-with-duplicates"
                 add(sig, f"{kind}: clone taken at prefix {i} answers {out!r} at event {j} {script[j]!r}, the original answered {outputs[j]!r}",
                     {"prefix": i, "event": j})
                 diverged = True
@@ -587,6 +601,15 @@ def gen_cases(rng, tier):
                "ctor": {"allow_duplicates": True, "random_seed": rng.randrange(1000), "shuffle": True, "num_samples": {},
                         "debug_log": False},
                "n_ops": 40, "seed": rng.randrange(10 ** 9), "lookahead": 14, "raw_state": False}
+    # (b2') GP searchers restricted to a list of configurations, snapshots inside the initial random phase
+    for _ in range(8 if quick else 100):
+        space = S.gen_space(rng, finite=rng.random() < 0.5, small=False, consts=False)
+        cs = S.build_space(space)
+        s0 = RandomSearcher(dict(cs), metric=METRIC, points_to_evaluate=[], random_seed=rng.randrange(1000), allow_duplicates=True)
+        yield {"scenario": "clone-twin", "kind": rng.choice(["gp-fifo", "gp-mf"]), "space": space, "p2e": [] ,
+               "ctor": {"allow_duplicates": False, "random_seed": rng.randrange(1000), "shuffle": True, "num_samples": {},
+                        "debug_log": False, "restrict": [S._plain(s0.get_config()) for _ in range(rng.randint(4, 12))]},
+               "n_ops": 30, "seed": rng.randrange(10 ** 9), "lookahead": 12, "raw_state": False}
     # (b3) model-based GP searcher restored in the middle of its fit / skip rhythm
     for _ in range(6 if quick else 40):
         n = 8 if quick else 11
